@@ -454,6 +454,8 @@ def sem_prepare(traces):
 
 def sem_describe(t, pos, tag):
     ev = t[pos] if pos < len(t) else {}
+    if tag == "C17.sem.len.stress":       # terminal form of the same obligation (a stress history is its single Stress line)
+        tag = "C17.sem.len"
     return tag, "sub=sem tag=%s op=%s mode=%s cap=%s" % (tag, ev.get("op"), t[0].get("mode"), t[0].get("cap")), \
         "semaphore history violates %s at event %d: %s" % (tag, pos, json.dumps(ev)[:300])
 
